@@ -5,8 +5,10 @@
    remove, swap_remove, insert, push, retain (PanicGuard), dedup_by (FillGapOnDrop), drain
    (consumed from both ends; dropped / keep_rest / leaked), extract_if (early drop), split_off,
    extend-with-clones, into_iter (consumed from both ends, then dropped), splice (partially consumed,
-   then dropped), map_in_place (closure panicking at any call), append; map, extend with lying size
-   hints, resize_with, dedup_by_key, partition, the allocation helpers and collections of zero-sized
+   then dropped), map_in_place (closure panicking at any call), append, and the growth by a
+   producer that may panic at any call (extend_from_slice_clone / extend_from_within_clone,
+   extend from an iterator, resize_with, resize), the consuming map and dedup_by_key; extend with
+   lying size hints, partition, the allocation helpers and collections of zero-sized
    elements are covered by implementation-side birth / drop counters; the two zero-sized branches
    that were defective (Drain::drop, alloc_slice_fill) are modelled in both versions. *)
 From Coq Require Import List Permutation.
@@ -76,6 +78,39 @@ Theorem C06_zst_fill_pinned_refuted :
     dropped (op_fill_zst true cl ids v) = [0; 1; v].
 Proof. exact fill_zst_pinned_refuted. Qed.
 
+(* growth by a producer (extend_from_slice_clone / extend_from_within_clone, extend / from_iter,
+   resize_with, resize) and the consuming map: the k-th production or closure call may panic; the
+   vector then holds its old elements and exactly the productions that completed, nothing else
+   came into existence and nothing was dropped twice or lost *)
+Theorem C06_extend_clones : forall cl l ids,
+  exists made rest, ids = made ++ rest /\ conserved (op_extend_clones cl l ids) (l ++ made) /\
+    final (op_extend_clones cl l ids) = l ++ made /\
+    (unwound (op_extend_clones cl l ids) = false -> rest = []).
+Proof. exact extend_clones_conserved. Qed.
+Theorem C06_extend_iter : forall nx l ids,
+  exists made rest, ids = made ++ rest /\ conserved (op_extend_iter nx l ids) (l ++ made) /\
+    final (op_extend_iter nx l ids) = l ++ made /\
+    (unwound (op_extend_iter nx l ids) = false -> rest = []).
+Proof. exact extend_iter_conserved. Qed.
+Theorem C06_resize_with : forall f dp l new_len ids,
+  exists made rest, firstn (new_len - length l) ids = made ++ rest /\
+    conserved (op_resize_with f dp l new_len ids) (l ++ made) /\
+    (unwound (op_resize_with f dp l new_len ids) = false -> rest = []).
+Proof. exact resize_with_conserved. Qed.
+Theorem C06_resize : forall cl dp l new_len ids v,
+  exists made rest, firstn (new_len - length l - 1) ids = made ++ rest /\
+    conserved (op_resize cl dp l new_len ids v) (l ++ made ++ [v]) /\
+    (unwound (op_resize cl dp l new_len ids v) = false -> length l < new_len -> rest = []).
+Proof. exact resize_conserved. Qed.
+Theorem C06_map : forall l k, conserved (op_map l k) l.
+Proof. exact map_conserved. Qed.
+Theorem C06_map_all_or_nothing : forall l k,
+  (unwound (op_map l k) = false -> final (op_map l k) = l /\ dropped (op_map l k) = []) /\
+  (unwound (op_map l k) = true -> final (op_map l k) = [] /\ dropped (op_map l k) = l).
+Proof. exact map_keeps_all_or_nothing. Qed.
+Theorem C06_dedup_by_key : forall key dp l, conserved (op_dedup_by_key key dp l) l.
+Proof. exact dedup_by_key_conserved. Qed.
+
 Print Assumptions C06_conserved_implies_exactly_once.
 Print Assumptions C06_truncate.
 Print Assumptions C06_pop.
@@ -97,3 +132,10 @@ Print Assumptions C06_zst_drain_conserved.
 Print Assumptions C06_zst_drain_pinned_refuted.
 Print Assumptions C06_zst_fill_conserved.
 Print Assumptions C06_zst_fill_pinned_refuted.
+Print Assumptions C06_extend_clones.
+Print Assumptions C06_extend_iter.
+Print Assumptions C06_resize_with.
+Print Assumptions C06_resize.
+Print Assumptions C06_map.
+Print Assumptions C06_map_all_or_nothing.
+Print Assumptions C06_dedup_by_key.
